@@ -11,6 +11,11 @@ RUN_MODULE = "RunC09"
 RULE = ("one case = a history of 2-6 runs on one real recorder (successful, raising, interrupted, discarded, sampled out, "
         "save failing, replay of a missing id, replay with missing keys / key-creation errors, replay whose playback function "
         "raises) ending in a probe run that is also executed on a FRESH recorder over the same cassette and draw position; "
+        "plus service-shaped histories (1-2 classes each declared once with ONE registered parameters object, mostly a "
+        "fractional rate, runs forcing / not forcing sampling independently; a deterministic grid forced run -> [other class | "
+        "replay] -> unforced run of the same class with the draw above the rate) and histories in which a recording written "
+        "through the cassette API (copy of a recorded run with no / no clock / only user / full metadata) is replayed and the "
+        "recorder is used again (implementation-side only: the clock metadata is outside the model); "
         "non-trivial = history of >= 2 runs; distinct = distinct history")
 ASSUMPTIONS = ["the thread-local interception flag is observed on the driver thread only",
                "threads: as for C04/C05 - the methods that touch the active recording are modelled access by access "
@@ -236,7 +241,9 @@ MANIFEST = dict(
          "legitimately persists is explicit). Model tied to /repo by running random histories (all ending kinds) on one real "
          "recorder and comparing every observable incl. the recorder's private fields after each run; direct predicate: all "
          "public/private flags idle after every run, and the last run repeated on a fresh recorder over the same cassette "
-         "and draw position gives the identical observation.",
+         "and draw position gives the identical observation. The histories include classes whose registered parameters object is "
+         "shared by all their runs (forced then unforced runs of one class at a rate below 1) and replays of recordings that "
+         "did not come from the recorder (no duration metadata: play() fails after the replay state was cleared).",
     note="Trusted: Coq kernel + vm_compute, hand-written model, correspondence harness. Other threads' thread-local flags are "
          "not modelled (driver thread only).",
     technique="Coq proof (invariant + induction over histories) + differential correspondence by vm_compute + fresh-recorder "
